@@ -173,6 +173,8 @@ type m9sess struct {
 	selected string
 	readOnly bool
 	seen     int
+	// script: command kinds forced for this session's next steps ("select:<name>" selects that mailbox)
+	script []string
 }
 
 func (mo *m9model) names() []string {
@@ -236,7 +238,52 @@ func genSearchKey(t *simrt.Tape, depth int, msgs []*m9msg, maxUID uint32) skey {
 		return skey{text: "", eval: func(m *m9msg, seq int) bool { return m.flags[strings.ToLower(name)] == want }}
 	}
 	dates := []time.Time{time.Date(2021, 6, 15, 0, 0, 0, 0, time.UTC), time.Date(2022, 1, 1, 0, 0, 0, 0, time.UTC), time.Date(2023, 12, 28, 0, 0, 0, 0, time.UTC), time.Date(2020, 3, 1, 0, 0, 0, 0, time.UTC)}
-	switch t.Choose(22) {
+	dk := func(sent bool) skey {
+		d := pickDate(sent, dates)
+		kind := t.Choose(3)
+		pfx := ""
+		if sent {
+			pfx = "SENT"
+		}
+		txt := pfx + []string{"BEFORE", "ON", "SINCE"}[kind] + " " + d.Format("2-Jan-2006")
+		return skey{txt, func(m *m9msg, seq int) bool {
+			base := m.internal
+			if sent {
+				if !m.hasDate {
+					return false
+				}
+				base = m.date
+			}
+			md := dayOf(base)
+			switch kind {
+			case 0:
+				return md.Before(d)
+			case 1:
+				return md.Equal(d)
+			}
+			return !md.Before(d)
+		}}
+	}
+	switch t.Choose(24) {
+	case 22, 23:
+		// two keys of one family with their own bounds: the conjunction keeps both
+		var a, b skey
+		switch t.Choose(4) {
+		case 0:
+			a, b = dk(true), dk(true)
+		case 1:
+			a, b = dk(false), dk(false)
+		case 2:
+			n1, n2 := []int{0, 60, 150, 300}[t.Choose(4)], []int{1, 100, 200, 400}[t.Choose(4)]
+			a = skey{fmt.Sprintf("LARGER %d", n1), func(m *m9msg, seq int) bool { return len(m.raw) > n1 }}
+			b = skey{fmt.Sprintf("LARGER %d", n2), func(m *m9msg, seq int) bool { return len(m.raw) > n2 }}
+		default:
+			n1, n2 := []int{60, 150, 300, 100000}[t.Choose(4)], []int{100, 200, 400, 5000}[t.Choose(4)]
+			a = skey{fmt.Sprintf("SMALLER %d", n1), func(m *m9msg, seq int) bool { return len(m.raw) < n1 }}
+			b = skey{fmt.Sprintf("SMALLER %d", n2), func(m *m9msg, seq int) bool { return len(m.raw) < n2 }}
+		}
+		// (parenthesised: one search-key, also as an operand of OR / NOT)
+		return skey{"(" + a.text + " " + b.text + ")", func(m *m9msg, seq int) bool { return a.eval(m, seq) && b.eval(m, seq) }}
 	case 0:
 		switch t.Choose(5) {
 		case 0: // the backend has no \Recent flag: no message is recent
@@ -485,6 +532,16 @@ func (d *c09driver) step(s *m9sess) bool {
 	}
 	kind := choices[t.Choose(len(choices))]
 	name := c09names[t.Choose(len(c09names))]
+	forced := ""
+	if len(s.script) > 0 {
+		forced, s.script = s.script[0], s.script[1:]
+		if box == nil && !strings.HasPrefix(forced, "select:") {
+			forced, s.script = "", nil
+		}
+	}
+	if forced != "" {
+		kind = forced
+	}
 	if (kind == "select" || kind == "append" || kind == "status") && t.Choose(2) == 0 {
 		// favour mailboxes that exist (and the selected one, so that it fills up)
 		existing := mo.names()
@@ -492,6 +549,9 @@ func (d *c09driver) step(s *m9sess) bool {
 		if box != nil && kind == "append" && t.Choose(2) == 0 {
 			name = box.name
 		}
+	}
+	if strings.HasPrefix(forced, "select:") {
+		kind, name = "select", strings.TrimPrefix(forced, "select:")
 	}
 	switch kind {
 	case "create":
@@ -1001,6 +1061,10 @@ func (d *c09driver) selectedStep(s *m9sess, b *m9box, kind string) bool {
 	case "copy", "move":
 		set := d.genSet(b, uid)
 		dest := c09names[t.Choose(len(c09names))]
+		if t.Choose(2) == 0 {
+			existing := mo.names() // favour a destination that exists
+			dest = existing[t.Choose(len(existing))]
+		}
 		verb := "COPY"
 		if kind == "move" {
 			verb = "MOVE"
@@ -1067,6 +1131,10 @@ func (d *c09driver) selectedStep(s *m9sess, b *m9box, kind string) bool {
 			db.msgs = append(db.msgs, &cp)
 		}
 		d.r.Probe(kind + "-done")
+		if kind == "copy" && t.Choose(2) == 0 {
+			// then change flags on this side and look at the other side: the copies are independent messages
+			s.script = []string{"store", "select:" + dest, "fetch"}
+		}
 		if kind == "move" {
 			var keep []*m9msg
 			for i, m := range before {
